@@ -86,6 +86,48 @@ def run(tier):
                             key = 'window' if (lo, hi) not in ((0, None), (0, rows)) else 'equivalence'
                             chk.fail(f'source:{kind}:{key}-differs', case,
                                      f'file differs from the dict source with pre-sliced arrays rows [{lo},{hi})')
+        # an indexed frame whose index channel is written under a narrower type than its data (float64 values that are
+        # not singles, cast to float32): the index attributes of the frame are derived from the data as handed in, whatever
+        # the kind of source
+        import numpy as _np
+        for si in range(6 if tier == 'quick' else 40):
+            rows = R.choice([3, 4, 6])
+            spec = filegen.gen_spec(R, n_lf=1, small=True, rows=rows, vrl=8192, with_index='uniform')
+            done = False
+            for lf in spec['lfs']:
+                for o in lf['objects']:
+                    if o['kind'] == 'channel':
+                        o['layout'] = 'plain'
+                        if o.get('dataset_name') and o['dataset_name'].startswith('/'):
+                            o['dataset_name'] = o['dataset_name'].strip('/').replace('/', '_')
+                        if o.get('index_like'):
+                            start, step = R.choice([(1500.05, 0.1524), (0.1, 0.1), (2499.9, -0.3048)])
+                            o['dtype'], o['width'] = 'float64', None
+                            o['data'] = _np.array([start + k * step for k in range(rows)], dtype='float64')
+                            o['cast_dtype'] = 'float32'
+                            done = True
+            if not done:
+                continue
+            spec['hc'] = False
+            spec['write'].update({'data_kind': 'dict', 'input_chunk_size': None, 'output_chunk_size': 2**20, 'from_idx': 0, 'to_idx': None})
+            for (lo, hi) in ((0, None), (1, None), (0, rows - 1)):
+                ref = filegen.write(sliced(spec, lo, hi if hi is not None else rows), tmp, fname='ref.dlis')
+                if ref['status'] != 'ok':
+                    chk.count(f'index-cast:reference-write-failed:{ref["error"]}')
+                    continue
+                for kind in ('inline', 'dict', 'struct', 'hdf5'):
+                    s2 = dict(spec)
+                    s2['write'] = dict(spec['write'], data_kind=kind, from_idx=lo, to_idx=hi,
+                                       source_opts={'perm_seed': R.randrange(1000), 'extra': R.choice([0, 2]), 'exact': False, 'tmpdir': tmp})
+                    res = filegen.write(s2, tmp, fname='w.dlis')
+                    case = {'spec_index': si, 'spec': filegen.describe(spec), 'source': kind, 'from_idx': lo, 'to_idx': hi,
+                            'index_channel': 'float64 data, cast_dtype float32'}
+                    chk.case('index-cast', nontrivial_key=('ic', si, kind, lo, hi), sample={'source': kind, 'window': [lo, hi], 'status': res['status']})
+                    chk.count(f'index-cast:{kind}:{res["status"]}')
+                    if res['status'] != 'ok':
+                        chk.fail(f'source:{kind}:rejected', case, f'write raised {res["error"]} ({res["stage"]})')
+                    elif res['data'] != ref['data']:
+                        chk.fail(f'source:{kind}:index-cast-differs', case, 'file differs from the dict source with pre-sliced arrays')
         # one DLISFile written several times, each time from another kind of source holding OTHER values (same names,
         # shapes and dtypes): every file must equal the one a fresh specification writes from that data as a dict
         import numpy as np
